@@ -20,6 +20,9 @@
     ≥ 1             float/Fraction = int ≤ 0   the same with TypeError instead of that last block
     ≥ 1             not integral               block 0 (padded if short), then nothing; TypeError at the end iff more
                                                than max(size, hop) items came
+    ≥ 0             float inf / -inf / nan     never an error: block 0 if `size ≥ 1` items come, then nothing, clean end;
+                                               fewer than `size` items (or size 0): the padded (empty) block iff hop = +inf
+                                               and at least one item came
 -/
 import ALV.Spec.C08Hist
 import ALV.Model.C08Call
@@ -42,45 +45,66 @@ index is not an int any more -/
 def finish (ev : List (Nat × List α)) (n : Nat) (due : Bool) (ok : Bool) (b : Unit → List α) : CallRun α :=
   if due then (if ok then ⟨ev ++ [(n, b ())], .stop, n⟩ else ⟨ev, .err .typeError, n⟩) else ⟨ev, .stop, n⟩
 
+/-- the loop and the end for an accepted size `sz` and a hop of value `q` (`isInt`: the hop is spelled as an
+int, so the index stays a Python int): the rows `0` / `≥ 1` of the table above -/
+def hopTable (sz : Nat) (q : Rat) (isInt : Bool) (pad : α) (xs : List α) (e : Ending) : CallRun α :=
+  let n := xs.length
+  if sz = 0 then
+    match e with
+    | .fail => ⟨[], .srcFail, n⟩
+    | .stop => finish [] n (decide (max (-q) 0 < (n : Rat))) true (fun _ => [])
+  else if q.den = 1 ∧ 1 ≤ q.num then
+    -- THE PROPERTY (hop a positive whole number)
+    let h := q.num.toNat
+    let ev := fullEvents sz h xs
+    match e with
+    | .fail => ⟨ev, .srcFail, n⟩
+    | .stop =>
+      match tailBlock sz h pad xs with
+      | [] => ⟨ev, .stop, n⟩
+      | b :: _ => finish ev n true (isInt || ev.isEmpty) (fun _ => b)
+  else
+    -- hop ≤ 0 or not a whole number: no second block in the loop
+    let ev := if sz ≤ n then [(sz, xs.take sz)] else []
+    match e with
+    | .fail => ⟨ev, .srcFail, n⟩
+    | .stop =>
+      if n < sz then
+        finish ev n (decide (max ((sz : Rat) - q) 0 < (n : Rat))) true (fun _ => xs ++ List.replicate (sz - n) pad)
+      else
+        finish ev n (decide (sz < n ∧ q < (n : Rat))) isInt (fun _ => xs.drop (n - sz))
+
+/-- a non-finite float hop -/
+def nonFinTable (sz : Nat) (k : NonFin) (pad : α) (xs : List α) (e : Ending) : CallRun α :=
+  let n := xs.length
+  if sz = 0 then
+    match e with
+    | .fail => ⟨[], .srcFail, n⟩
+    | .stop => finish [] n (decide (k = .pinf ∧ 0 < n)) true (fun _ => [])
+  else
+    let ev := if sz ≤ n then [(sz, xs.take sz)] else []
+    match e with
+    | .fail => ⟨ev, .srcFail, n⟩
+    | .stop => finish ev n (decide (k = .pinf ∧ 0 < n ∧ n < sz)) true (fun _ => xs ++ List.replicate (sz - n) pad)
+
 def blocksCallSpec (dflt : α) (size hop : Num) (padval : Option α) (iterable : Bool) (xs : List α)
     (e : Ending) : CallRun α :=
   let pad := padval.getD dflt
-  let n := xs.length
   match size with
   | .int s =>
     if s < 0 then ⟨[], .err .valueError, 0⟩
     else if maxSsize < s then ⟨[], .err .overflowError, 0⟩
     else
       let sz := s.toNat
-      -- the defaulting rule: hop None = size
-      match (match hop with | .none => some ((sz : Rat), true) | h => h.val?) with
-      | Option.none => ⟨[], .err .typeError, 0⟩
-      | some (q, isInt) =>
-        if !iterable then ⟨[], .err .typeError, 0⟩
-        else if sz = 0 then
-          match e with
-          | .fail => ⟨[], .srcFail, n⟩
-          | .stop => finish [] n (decide (max (-q) 0 < (n : Rat))) true (fun _ => [])
-        else if q.den = 1 ∧ 1 ≤ q.num then
-          -- THE PROPERTY (hop a positive whole number)
-          let h := q.num.toNat
-          let ev := fullEvents sz h xs
-          match e with
-          | .fail => ⟨ev, .srcFail, n⟩
-          | .stop =>
-            match tailBlock sz h pad xs with
-            | [] => ⟨ev, .stop, n⟩
-            | b :: _ => finish ev n true (isInt || ev.isEmpty) (fun _ => b)
-        else
-          -- hop ≤ 0 or not a whole number: no second block in the loop
-          let ev := if sz ≤ n then [(sz, xs.take sz)] else []
-          match e with
-          | .fail => ⟨ev, .srcFail, n⟩
-          | .stop =>
-            if n < sz then
-              finish ev n (decide (max ((sz : Rat) - q) 0 < (n : Rat))) true (fun _ => xs ++ List.replicate (sz - n) pad)
-            else
-              finish ev n (decide (sz < n ∧ q < (n : Rat))) isInt (fun _ => xs.drop (n - sz))
+      match hop with
+      | .fnf k => if !iterable then ⟨[], .err .typeError, 0⟩ else nonFinTable sz k pad xs e
+      | _ =>
+        -- the defaulting rule: hop None = size
+        match (match hop with | .none => some ((sz : Rat), true) | h => h.val?) with
+        | Option.none => ⟨[], .err .typeError, 0⟩
+        | some (q, isInt) =>
+          if !iterable then ⟨[], .err .typeError, 0⟩
+          else hopTable sz q isInt pad xs e
   | _ => ⟨[], .err .typeError, 0⟩
 
 /-- `zero_pad`: `max(left,0)` pads, the items, `max(right,0)` pads; a `left` that is not an int is
